@@ -15,7 +15,9 @@ Checks(ev) ==
             <<"length", ev.out.len = LenOf(ev.kind, ev.obj, c) /\ Len(bytes) = ev.out.len /\ (~Has(ev.out, "len_static") \/ ev.out.len_static = ev.out.len)>>,
             <<"layout", bytes = Layout(ev.kind, ev.obj, c)>>,
             <<"roundtrip-checked", GoodRun(ev.kind, ev.obj, c, bytes, ev.out.checked)>>,
-            <<"roundtrip-unchecked", GoodRun(ev.kind, ev.obj, c, bytes, ev.out.unchecked)>> >>
+            <<"roundtrip-unchecked", GoodRun(ev.kind, ev.obj, c, bytes, ev.out.unchecked)>>,
+            \* marshalled data carries no alignment: the same protocol on byte buffers at an odd address
+            <<"roundtrip-misaligned", ~Has(ev.out, "checked_m") \/ GoodRun(ev.kind, ev.obj, c, bytes, ev.out.checked_m)>> >>
     [] o = "mar.bytes" ->
          LET c == ev.comp = 1  r == ev.out.res  nn == Len(ev.bytes)
              var == ev.kind \in {"wk.key", "wk.params"}
@@ -26,6 +28,8 @@ Checks(ev) ==
                <<"slot-count", ~var \/ r.rep = cnt>>,
                \* the non-validating path is constrained only on what the validating path accepts (and in memory safety, above)
                <<"verdict:" \o ev.cls, (ev.checked = 0 /\ ~valid) \/ (r.ok = 1) = valid>>,
+               \* both documented routes to the slot count, and whatever the target object held before, give the same outcome
+               <<"routes-agree", ~Has(r, "route2") \/ (r.route2.fault = 0 /\ r.route2.ok = r.ok /\ (r.ok = 0 \/ (r.route2.again = r.again /\ r.route2.relen = r.relen)))>>,
                <<"remarshal", r.ok = 0 \/ (ev.checked = 0 /\ ~valid) \/ r.again = ev.bytes \/ (var /\ ev.bytes[1] > 1)>> >>
     [] o = "mar.sweep" ->
          LET c == ev.comp = 1 IN
